@@ -24,6 +24,31 @@ def conjuncts : Nat → Formula → Option (List Formula)
 def cellsOfList (fs : List Formula) : Option (List Nat) :=
   fs.mapM (fun f => match f with | .var v => some v | _ => none)
 
+def sortStrings' (xs : List String) : List String := (xs.toArray.qsort (· < ·)).toList
+
+def cntOpTag : CntOp → Nat
+  | .atMost => 0 | .lessThan => 1 | .atLeast => 2 | .moreThan => 3 | .exactly => 4
+
+/-- a conjunction of literals and counting constraints over variables, up to the order of the conjuncts
+and of the variables inside a list: sorted keys `[tag, bound, cells…]` (a plain variable: `[9, v]`) -/
+def conjKey (fuel : Nat) (f : Formula) : Option (List String) :=
+  match conjuncts fuel f with
+  | none => none
+  | some cs =>
+    let keys : Option (List (List Nat)) := cs.mapM (fun (c : Formula) => match c with
+      | Formula.var v => some [9, v]
+      | Formula.cntConst op fs k => (cellsOfList fs).map (fun l => cntOpTag op :: k :: sortNats l)
+      | _ => none)
+    keys.map (fun (ks : List (List Nat)) =>
+      sortStrings' (ks.map (fun k => String.intercalate "," (k.map toString))))
+
+/-- the two formulas are the same conjunction of the same constraints (the order in which a generator
+writes its constraints, or the variables of one list, is not part of any property) -/
+def sameConstraints (fuel : Nat) (m f : Formula) : Bool :=
+  beqFormula m f || (match conjKey fuel m, conjKey fuel f with
+    | some a, some b => a == b
+    | _, _ => false)
+
 /-- `queens|n|exit class|tree (variable id = k of v_k) or BIG or ERR|solver rows or -` -/
 def handleC15 (fields : List String) : Verdict :=
   match fields with
@@ -49,7 +74,7 @@ def handleC15 (fields : List String) : Verdict :=
       | none => Verdict.badLine "unreadable tree"
       | some f =>
         let m := Queens.formula n
-        let modelOk := beqFormula m f
+        let modelOk := sameConstraints (10 * n + 20) m f
         -- oracle 1 (n ≤ 4): the formula's models are exactly the placements, over all 2^(n²) boards
         let o1 : Option String :=
           if n > 4 then none else
@@ -230,7 +255,7 @@ def handleC17 (fields : List String) : Verdict :=
       | none => { modelOk := false, modelOut := "a formula", oracle := some "the output is not a well-formed formula" }
       | some f =>
         let m := Sudoku.formula r givens sudokuVid
-        let modelOk := beqFormula m f
+        let modelOk := sameConstraints (4 * (sq * sq * 4 + 100)) m f
         if !inScope || r > 3 then { modelOk, modelOut := "" } else
         let fuel := 4 * (sq * sq * 4 + 100)
         let boardOf := fun (g : List Nat) => fun (v : Nat) => g.getD (v / 16) 0 == v % 16
